@@ -271,6 +271,10 @@ def run(pid):
         n = 40 if t == "quick" else 1500
         plans = [gen_plan(r, t) for _ in range(n)] + burst_plans(r, t)
         lines = ["EPOLL w=%d failadd=%s plan=%s" % (w, ",".join(map(str, fa)) or "-", ",".join(st)) for w, fa, st, _, _ in plans]
+        # the same plans with a one-slot event buffer (`epoll_queue_max_events(1)`: every batch is full)
+        k1 = 6 if t == "quick" else 200
+        lines += [l.replace("EPOLL ", "EPOLL maxev=1 ", 1) for l in lines[:k1]]
+        plans += plans[:k1]
         if replay is not None:
             lines = [replay["case"]]; plans = [None]
         impl = C.run_sharded(ctx["kimpl"], lines, shards=min(C.NCPU, 8))
@@ -282,7 +286,7 @@ def run(pid):
                 o.violations.append({"case": c, "impl": a[:200], "why": "epoll scenario crashed: " + a[:60]}); continue
             ports = [int(x) for x in d["ports"].split(",") if x]
             toks = canon([] if d["ev"] == "e" else d["ev"].split(","), ports)
-            tl = "EPOLLTRACE w=%s ev=%s" % (c.split()[1].split("=")[1], ",".join(toks))
+            tl = "EPOLLTRACE w=%s ev=%s" % (next(x for x in c.split() if x.startswith("w=")).split("=")[1], ",".join(toks))
             if spurious_dispatch(toks):
                 # known finding K14: after a spurious dispatch a worker sits in a blocking read on an idle connection until the
                 # client acts or the socket's read timeout fires (timeouts are outside the model): the rest of the trace is not replayed
